@@ -96,7 +96,7 @@ def build_electric_component(spec, shared=None):
             eng = shared.setdefault(("engine", spec["engine_share"]), build_engine(dict(spec["engine"], name=spec["engine_share"])))
         else:
             eng = build_engine(dict(spec["engine"], name=name + "_eng"))
-        rect = None if spec.get("rectifier") is None else build_basic(dict(spec["rectifier"], type="RECTIFIER"), swb, TypePower.POWER_SOURCE, name + "_rect")
+        rect = None if spec.get("rectifier") is None else build_basic(dict(spec["rectifier"], type=spec["rectifier"].get("type", "RECTIFIER")), swb, TypePower.POWER_SOURCE, name + "_rect")
         return Genset(name=name, aux_engine=eng, generator=gen, rectifier=rect)
     if k == "fuel_cell_system":
         fc = spec["fuel_cell"]
@@ -328,7 +328,8 @@ def _gen_source_spec(rng, name, swb, kinds):
              "engine": gen_engine_spec(rng, rated * 1.1)}
         if rng.random() < 0.25:
             r_rect = float(np.round(rated * float(rng.choice([1.0, 1.0, 1.2, 1.5, 2.0])), 1))      # a rectifier is often rated above its generator
-            s["rectifier"] = {"rated": r_rect, "curve": comps.gen_accepted_curve(rng, r_rect)}
+            s["rectifier"] = {"rated": r_rect, "curve": comps.gen_accepted_curve(rng, r_rect),
+                              "type": str(rng.choice(["RECTIFIER", "RECTIFIER", "ACTIVE_FRONT_END", "POWER_CONVERTER"]))}      # whatever the converter is called
         s["rated"] = rated
         return s
     if k == "fuel_cell_system":
